@@ -134,9 +134,12 @@ def run_graph(case, until=0):
                     w.connect(ents[src], ents[dst], (sa, da), **kw)
             except ScenarioError as e:
                 return "build_error", str(e), False
+        from mvf.harness import HarnessAbort
         try:
-            w.run(until=until, print_progress=False)
+            simple_sim.guarded_run(w, until=until, print_progress=False)
             outcome, msg = "accepted", ""
+        except HarnessAbort as e:
+            outcome, msg = "accepted", f"(the accepted scenario then ended in {e})"
         except ScenarioError as e:
             outcome, msg = "rejected", str(e)
         except BaseException as e:  # noqa
